@@ -61,8 +61,29 @@ pub fn run(ctx: &Ctx) -> Report {
         hs.push((RSched { world: mk(Trig::Size(50), fw(8, ".zst"), None), threads: 2, per_thread: 3, size: 24, chunks: 2 }, 3));
     }
     run_scheds(ctx, &mut rep, &hs);
+    // the same histories in the build with the `background_rotation` feature (thorough tier)
+    if let Ok(bin) = std::env::var("VERIF_BG_BIN") {
+        let o = crate::engine::proc::run_child(std::path::Path::new(&bin), "c05bg", &[], &[], ctx.cap);
+        let mut ok = false;
+        for v in o.json_lines() {
+            if v["kind"] == "stat" {
+                ok = true;
+                rep.add("states", v["states"].as_u64().unwrap_or(0));
+                rep.add("transitions", v["transitions"].as_u64().unwrap_or(0));
+                rep.add("traces_validated_against_impl", v["replays"].as_u64().unwrap_or(0));
+                rep.set("background_rotation_build", v.clone());
+            }
+            if v["kind"] == "violation" {
+                rep.violation(format!("background-rotation:{}", v["sig"].as_str().unwrap_or("")), v["detail"].as_str().unwrap_or(""), v["case"].clone());
+            }
+        }
+        if !ok {
+            eprintln!("MACHINERY FAILURE: background-rotation child failed: {}", String::from_utf8_lossy(&o.stderr));
+            std::process::exit(2);
+        }
+    }
     rep.assume("truncate-mode restarts discard the active file by design (the property claims restarts in append mode); there the directory is compared with the model only");
-    rep.assume("background_rotation feature: not explored by this build");
+    rep.assume("background_rotation feature: histories are explored in the thorough tier with a quiescence wait after every operation; the interleavings of the library's own rotation thread are not enumerated");
     rep
 }
 
@@ -71,4 +92,17 @@ pub fn replay(case: &serde_json::Value) -> Result<(), String> {
         return replay_sched_case(case);
     }
     replay_world_case(case)
+}
+
+/// `child c05bg` — run in the binary built with the `background_rotation` feature
+pub fn child_bg() -> i32 {
+    let ctx = Ctx { id: "C05".into(), tier: Tier::Quick, seed: 0, start: std::time::Instant::now(), cap: std::time::Duration::from_secs(1200), verif_dir: "/nonexistent".into(), exe: std::env::current_exe().unwrap() };
+    let mut rep = Report::new("model_checking");
+    let ws: Vec<World> = worlds(Tier::Quick).into_iter().filter(|w| matches!(w.roller, RollerK::Fixed { .. })).collect();
+    run_worlds(&ctx, &mut rep, &ws, 4);
+    for v in rep.violations() {
+        println!("{}", serde_json::json!({"kind": "violation", "sig": v.signature, "detail": v.detail, "case": v.replay}));
+    }
+    println!("{}", serde_json::json!({"kind": "stat", "feature_background_rotation": cfg!(feature = "background_rotation"), "worlds": ws.len(), "states": rep.get("states"), "transitions": rep.get("transitions"), "replays": rep.get("traces_validated_against_impl")}));
+    0
 }
